@@ -9,6 +9,7 @@ package keeper
 // proof.go HasProofExternalOwnedAccount: store.Has(KeyProofExternalOwnedAccountByAddress(accAddr)) — presence of a stored proof
 // per store layer, keyed by the raw address bytes (the key function is injective in the address: prefix ++ address bytes).
 //@ ghost var vauthProof map[int]map[bytes]bool
+//@ layered vauthProof
 //@ func (k Keeper) HasProofExternalOwnedAccount(ctx sdk.Context, accAddr sdk.AccAddress) bool
 //@   assumed
 //@   modifies nothing
